@@ -241,6 +241,46 @@ def standin_born_scenarios(tier, seed):
 standin_born_scenarios.prop = "C02"
 
 
+def standin_keyed_channels(tier, seed):
+    """channels that carry a measurement key record WHICH operator was applied: the joint distribution of those records and of later measurements
+    is p_i = tr(K_i rho K_i^dagger) with the state collapsed accordingly, for every simulator that runs the circuit"""
+    import cirq
+
+    q = cirq.LineQubit.range(2)
+    cases, fails = 0, []
+    ad = cirq.kraus(cirq.amplitude_damp(0.5))
+    scen = {
+        "amplitude damping of |1>": (cirq.Circuit(cirq.X(q[0]), cirq.KrausChannel(ad, key="k").on(q[0]), cirq.measure(q[0], key="m")),
+                                     {(("k", ((0,),)), ("m", ((1,),))): 0.5, (("k", ((1,),)), ("m", ((0,),))): 0.5}),
+        "mixed unitary I / X on |0>": (cirq.Circuit(cirq.MixedUnitaryChannel([(0.25, np.eye(2)), (0.75, cirq.unitary(cirq.X))], key="k").on(q[0]), cirq.measure(q[0], key="m")),
+                                        {(("k", ((0,),)), ("m", ((0,),))): 0.25, (("k", ((1,),)), ("m", ((1,),))): 0.75}),
+        "keyed channel then feed-forward": (cirq.Circuit(cirq.MixedUnitaryChannel([(0.5, np.eye(2)), (0.5, cirq.unitary(cirq.X))], key="k").on(q[0]), cirq.X(q[1]).with_classical_controls("k"), cirq.measure(q[0], q[1], key="m")),
+                                             {(("k", ((0,),)), ("m", ((0, 0),))): 0.5, (("k", ((1,),)), ("m", ((1, 1),))): 0.5}),
+    }
+    for label, (circ, want) in scen.items():
+        for name, mk in (("Simulator", lambda s_: cirq.Simulator(seed=s_)), ("DensityMatrixSimulator", lambda s_: cirq.DensityMatrixSimulator(seed=s_))):
+            cases += 1
+            try:
+                got = {}
+                for p_, rec in enumerate_branches(lambda r: _canon_records(mk(r).run(circ, repetitions=1))):
+                    got[rec] = got.get(rec, 0.0) + p_
+            except Exception as ex:
+                fails.append(dict(args=dict(simulator=name, scenario=label, circuit=repr(circ)), failed="keyed-channel-records", clause=f"{name}: the channel's record is not available: {type(ex).__name__}: {str(ex)[:150]}"))
+                continue
+            if set(got) != set(want) or any(abs(got[k_] - want[k_]) > 1e-6 for k_ in want):
+                fails.append(dict(args=dict(simulator=name, scenario=label, circuit=repr(circ)), failed="keyed-channel-records",
+                                  clause=f"{name}: records {sorted(got.items())} instead of {sorted(want.items())}"))
+    # one witness per simulator
+    seen, uniq = set(), []
+    for f in fails:
+        if (f["failed"], f["args"]["simulator"]) not in seen:
+            seen.add((f["failed"], f["args"]["simulator"]))
+            uniq.append(f)
+    return dict(function="cirq-core/cirq/sim/density_matrix_simulator.py:DensityMatrixSimulator.run[keyed channels]", case="keyed-channels", bound="3 fixed scenarios x 2 simulators, all branches enumerated",
+                cases=cases, distinct=cases, failures=len(fails), exhaustive=True, _fails=uniq)
+standin_keyed_channels.prop = "C02"
+
+
 def standin_tableau_measure(tier, seed):
     """the tableau measurement step behind StabilizerSampler / CliffordTableauSimulationState (shared with C13)"""
     from contracts.C13_standins import standin_tableau_measure as f
@@ -253,4 +293,4 @@ def standin_sampling_statistics(tier, seed):
 
     return f(tier, seed)
 standin_sampling_statistics.prop = "C02"
-STANDINS = [standin_born, standin_born_scenarios, standin_tableau_measure, standin_sampling_statistics]
+STANDINS = [standin_born, standin_born_scenarios, standin_tableau_measure, standin_sampling_statistics, standin_keyed_channels]
